@@ -61,9 +61,11 @@ CLAIMS = {
              'numbering loop for programmes, contents and objects gives next, next+1, ... in document order to exactly the '
              'elements outside the reserved range and leaves the others unchanged; the complete function (pack formats, the '
              'stream / channel / track format section, track UIDs included) is proved by a Hoare-style traversal '
-             '(Heap/ReassignFull.v) to change IDs and block IDs only, for every outcome, from every well-formed state. Which '
-             'numbers pack, stream, channel, track formats and track UIDs receive, uniqueness and idempotence are decided by '
-             'the differential run.',
+             '(Heap/ReassignFull.v) to change IDs and block IDs only, for every outcome, from every well-formed state. A '
+             'successful call keeps the IDs of listed elements unique and the membership lists consistent (every ID it hands '
+             'out goes through set(Id), which refuses an ID in use; Heap/UniqReassign.v) and keeps the labelling of pack / '
+             'channel formats and their blocks (Heap/Labels.v). Which numbers pack, stream, channel, track formats and track '
+             'UIDs receive, and idempotence, are decided by the differential run.',
         design='8 C14'),
     'C16': dict(
         technique='Rocq proof of the block rewrite, of exact rational contiguity (decimal and fractional times) and of the '
@@ -133,8 +135,11 @@ CLAIMS = {
              'ID belongs to the all-zero ID. Also for all inputs: nextCounter returns the least free value at or above the '
              'preferred one and keeps a free one; Document::add changes no element already in a document; set(Id) of an ID '
              'in use throws and changes nothing. Partial in these respects: the model\'s ID fields are unbounded (wrap-around '
-             'at the top of the 16/32-bit fields is outside the model, as the property\'s quantifier allows); documents '
-             'produced by deepCopy/parse are covered by C09/C13 and the oracles, not by this invariant.',
+             'at the top of the 16/32-bit fields is outside the model, as the property\'s quantifier allows); parsed documents '
+             'are covered by C08/C13 and the oracles. The invariant is also carried through the extended calls - block '
+             'additions, copy(), Document::deepCopy, deepCopyTo, updateBlockFormatDurations, tracing (Heap/UniqExt.v) - and '
+             'reassignIds keeps membership consistency and uniqueness (Heap/UniqReassign.v); histories that continue '
+             'after a reassignIds are outside the invariant theorem.',
         design='8 C05'),
     'C01': dict(
         technique='Rocq proof over writer/parser tables regenerated from the XML code (name-level agreement, literal values, '
